@@ -261,6 +261,10 @@ pub fn run_session(ctx: &Ctx, lines: &[String], eof_after: Option<usize>, raw_ta
                     Err(v2) => last = v2,
                 }
             }
+            if uciproc::harness_overloaded() {
+                rep.infra_errors.push(format!("inconclusive: {} - but this process itself is being kept from running (machine overloaded)", last.detail));
+                return Ok(());
+            }
             Err(last)
         }
     }
